@@ -12,7 +12,9 @@ DESIGN_REF = "DESIGN.md §9 C20, §12.C20"
 COQ_TARGETS = ["Properties/C20", "Pins/C20"]
 THEOREMS = [("PdfV.Properties.C20", n) for n in
             ["C20_closed", "C20_equal", "C20_once", "C20_reachable_only", "C20_total", "C20_never_panics",
-             "C20_page_resources", "C20_page_pruned", "C20_tables", "C20_old_order_refuted", "C20_categories_refuted"]]
+             "C20_page_resources", "C20_page_pruned", "C20_tables", "C20_old_order_refuted", "C20_categories_refuted",
+             "C20_graph_iso", "C20_edges", "C20_copy_determined", "C20_stream_equal", "C20_dict_equal", "C20_page_present",
+             "C20_target_steps", "C20_target_valid", "C20_reload_object", "C20_reload_stream"]]
 ANCHORS = ["build.rs", "content.rs:deep_clone_op", "types.rs:struct Resources", "object/mod.rs:Primitive::deep_clone", "file.rs:Storage::empty"]
 MODES = ["import_graph", "import"]
 TRUSTED_BASE = ["coqc 8.16.1 kernel (vm_compute for table lemmas and witnesses; no native_compute)",
